@@ -381,7 +381,9 @@ def m_host_value_contradicts(rng, d):
     k = _pick(rng, d["sensitive_hosts"])
     m = ADDR_RE.match(k)
     a = f"({int(m.group(1))}, {int(m.group(2))})"
-    d["host_configurations"][a]["value"] = d["sensitive_hosts"][k] + rng.choice([1, -1, 0.5, 100])
+    v = d["sensitive_hosts"][k]
+    # relative offsets and absolute values (the default host value 0 is a contradiction too)
+    d["host_configurations"][a]["value"] = rng.choice([v + 1, v - 1, v + 0.5, v + 100, 0, 0.0, -v, 0, v * 2])
     return d
 
 
